@@ -4,7 +4,7 @@ from wiring import Profile
 
 MANIFEST = {
     "level": "proof",
-    "text": 'event-log theorems of the factory model; correspondence compares the complete event log (callbacks of observing processors with field snapshots, AfterPropertiesSet, Init) exactly; the EXTENDED model (Model/FactoryX.v: Init methods that look components up, post-processors that short-circuit instantiation) carries every run-level invariant family as well (Proofs/FactoryX*.v, theorems *_extended) and is what the correspondence evaluates; scenarios end with Factory.GetComponents(), are restarted on the same App value, have another App started before or in the middle, and include crowds of 24..36 instances of one type',
+    "text": 'event-log theorems of the factory model; correspondence compares the complete event log (callbacks of observing processors with field snapshots, AfterPropertiesSet, Init) exactly; the EXTENDED model (Model/FactoryX.v: Init methods that look components up, post-processors that short-circuit instantiation) carries every run-level invariant family as well (Proofs/FactoryX*.v, theorems *_extended) and is what the correspondence evaluates; scenarios end with Factory.GetComponents(), are restarted on the same App value, have another App started before or in the middle, and include crowds of 24..36 instances of one type; a third stream has callbacks, AfterPropertiesSet or Init methods that fail',
     "design_ref": "DESIGN.md 5 C05, 4.3, Appendix A/D",
     "note": "trusted: Coq kernel + vm_compute; hand-written model (Model/Resolve.v, Factory.v, App.v) tied to the code by exact "
             "comparison of event log, wiring and lookups on generated scenarios; Python generator/Go code generator/wx runtime; "
@@ -14,7 +14,10 @@ MANIFEST = {
 
 # crowd scenarios are rare here: the dependencies-first oracle is cubic in the population (C01 C03 C06-C10 C13 carry them)
 PROFILES = [(Profile(p_wrap=0.1, n_procs=(0, 3), p_lazy=0.35, p_init=0.8, p_aps=0.5, p_crowd=0.003), 450, 4500),
-            (Profile(p_wrap=0.15, n_procs=(1, 2), p_lazy=0.4, p_init=0.9, p_aps=0.5, p_initget=0.4, p_short=0.5, p_crowd=0.0), 150, 1500)]
+            (Profile(p_wrap=0.15, n_procs=(1, 2), p_lazy=0.4, p_init=0.9, p_aps=0.5, p_initget=0.4, p_short=0.5, p_crowd=0.0), 150, 1500),
+            # a lifecycle that is cut short: a callback, AfterPropertiesSet or Init that fails ends the component's lifecycle
+            # and the start; nothing that was refused is initialised any further or handed out as finished
+            (Profile(p_wrap=0.1, n_procs=(1, 3), p_lazy=0.3, p_init=0.8, p_aps=0.5, p_fault=0.8, n_faults=(1, 2), p_valid=0.8, p_crowd=0.0), 100, 1000)]
 
 RULE = 'graphs with lazy/eager mixes, 0-3 observing processors of all ordering classes, init callbacks; non-trivial = successful start with >= 1 injected edge and >= 1 Init'
 
